@@ -1,5 +1,6 @@
 """C04 — exported files are well-formed modules (layout/quoting/unraw/escaping clauses)."""
 from rules import templates as T
+from rules import text_rules as X
 from rules import field_rules as F
 from rules import merge_rules as MR
 from rules import export_rules as E
@@ -8,7 +9,7 @@ ASSUMPTIONS = ["parsing every possible output under a TypeScript grammar is NOT 
 
 
 def run(ctx):
-    out = [F.quoting_rule(ctx.mir("default")["ts_rs_macros"], "C04"), T.unraw_rule(ctx.syn, "C04"), F.quoted_sink_rule(ctx.mir("default")["ts_rs_macros"], ctx.syn, "C04"), T.quoted_sink_rule(ctx.syn, "C04", rule="C04.R4b", direct_only=True), MR.writer_reader_rule(ctx.syn, "C04", rule="C04.R5", crate=ctx.mir("default")["ts_rs"]), T.object_merge_rule(ctx.syn, "C04", "C04.R6"), T.paren_strip_rule(ctx.syn, "C04", "C04.R7"), T.empty_name_rule(ctx.syn, "C04"), T.escape_coverage_rule(ctx.syn, "C04")]
+    out = [F.quoting_rule(ctx.mir("default")["ts_rs_macros"], "C04"), T.unraw_rule(ctx.syn, "C04"), F.quoted_sink_rule(ctx.mir("default")["ts_rs_macros"], ctx.syn, "C04"), T.quoted_sink_rule(ctx.syn, "C04", rule="C04.R4b", direct_only=True), MR.writer_reader_rule(ctx.syn, "C04", rule="C04.R5", crate=ctx.mir("default")["ts_rs"]), T.object_merge_rule(ctx.syn, "C04", "C04.R6"), T.paren_strip_rule(ctx.syn, "C04", "C04.R7"), T.empty_name_rule(ctx.syn, "C04"), X.escape_coverage_rule(ctx.mir("default")["ts_rs_macros"], ctx.syn, "C04")]
     for fs in ctx.featuresets():
         r = T.layout_rule(ctx.mir(fs)["ts_rs"], "C04")
         if fs != "default":
